@@ -28,6 +28,7 @@ EXPLANATION = (
     "iterated front to back un-reordered and the brothers of the i-th block are brothers[i]; in the advance context each "
     "brother list is sorted ascending by the bytes of get_block_hash (merge-mining fields removed leaving the BTC header); "
     "the merge-mining slice table and the RLP list-prefix table; update_ancestor strips with the same defaults the block "
+    "hash uses; the flow of the whole block operation and of one header exchange, per segment, as decision tables (which answer / flag leads where, the failure pair relayed, handlers answering (False, ..), the payload-size bound before to_bytes(2), every operation-byte test reading the answer of the exchange before it); "
     "hash uses; coinbase midstate constants equal bc.h; op codes equal the firmware's; results map to 0/1 (C04-R2). Does not "
     "decide byte-exactness for all headers nor rlp / SHA-256-midstate arithmetic."
 )
